@@ -532,18 +532,18 @@ def check(run):
     run.rule("R05.6", "building the placeholder graph leaves the original tensors untouched", floor=4)
     run.rule("R05.5", "where-masks are applied by broadcasting arithmetic, never as an index", floor=2)
     run.rule("R05.4", "ApplyMask / UnView glue ops are created under exactly their conditions with the placeholder operands", floor=3)
-    r05_1(run)
-    r05_2(run)
-    r05_3(run)
-    r05_4(run)
-    r05_5(run)
-    r05_6(run)
+    run.do(r05_1)
+    run.do(r05_2)
+    run.do(r05_3)
+    run.do(r05_4)
+    run.do(r05_5)
+    run.do(r05_6)
     run.rule("R05.7", "dtype-kind tests (np.issubdtype / issubclass on a dtype) name abstract scalar classes, never one concrete width", floor=8)
-    r05_7(run)
+    run.do(r05_7)
     run.rule("R05.8", "UnView replays the view functions on a buffer laid out like the base", floor=1)
-    r05_8(run)
+    run.do(r05_8)
     run.rule("R05.9", "routing ops (SetItem, UnView, ApplyMask) and the ufunc where-mask drop excluded entries by assignment/selection, never by "
              "scaling with a 0/1 mask (0 * nan = nan leaks a non-finite gradient into overwritten / masked-out contents)", floor=4)
-    r05_9(run)
+    run.do(r05_9)
     run.rule("R05.10", "index classifiers decide from the converted element (dtype kind, ndim), not from its Python type", floor=2)
-    r05_10(run)
+    run.do(r05_10)
